@@ -76,6 +76,23 @@ add("C17", "E3 tracespace", "model_checking", "bounded-exhaustive enumeration of
     "28 throwables x 72 frames x top-level present/absent x 0..2 frames x cause chains up to depth 3 (4): parse(print(t)) == t and print(parse(print(t))) == print(t); single frames (3 indentations) and throwables likewise; frames without file: text fix-point.",
     TEXT_NOTE + " Domain restrictions as in the evidence assumptions (taken from the statement).", "DESIGN.md §4 C17")
 
+add("C13", "E2 textspace", "model_checking", "bounded-exhaustive enumeration of hostile mappings (token strings + structured hostile numerals) and query strings through the whole real pipeline; totality oracle",
+    "Every string of <=5 (6) tokens over 19 hostile tokens, every class+entry mapping with all four numbers from 7 hostile numerals (and pairs over a sub-alphabet) goes through mapper (both flags), cache write, parse and all queries incl. lines 0, 2^32, 2^64-1; "
+    "every string of <=6 (7) symbols over descriptor characters / trace tokens is used as signature / trace text. No panic (overflow checks compiled in), no Err. A scale family (cause depth / frame count up to 200000, in a subprocess) is reported separately.",
+    TEXT_NOTE + " Overflow checks and debug assertions compiled into the subject. Known finding K1 (typed-trace recursion at depth 200000) is listed in known_findings.txt.", "DESIGN.md §4 C13")
+add("C14", "E7 multiproc", "exploration", "exhaustive enumeration of inputs x a finite harness-owned set of hash seeds (separately started processes under a getrandom shim), byte-for-byte comparison",
+    "Every mapping of the scopes (all histories up to depth 4 (5), file-rule and name-table families, a wide family with >=6 keys per hash container, corpus) is serialised in 8 (24) separately started processes with owned hash seeds + 2 with OS seeds; in each process twice in a row and, for every 64th input, from two concurrent threads; all byte strings must be identical and as long as the header implies.",
+    "Trusted: rustc/std; the getrandom shim. The 2^128 seed space is not enumerable: seeds are a finite owned set (the evidence reports how many distinct iteration orders they produced); exhaustive is the input dimension.", "DESIGN.md §4 C14")
+add("C15", "E5 sinkfault", "fault_enumeration", "deviation-bounded exhaustive exploration of sink behaviours (run, record calls, branch on every later call) around the real writer",
+    "17 mappings (every padding site exercised / not) x every sink script with <=4 (5) deviations from 'accept everything' (short by 1/2/3/len-1 bytes, Ok(0), Interrupted, sticky hard error at any call) + uniform k-byte sinks k=1..16: success implies the accepted bytes are exactly the canonical file; a hard failure or Ok(0) implies an error; delivered bytes are always a prefix; short writes and interruptions alone never fail the write.",
+    "Trusted: rustc/std; the scripted sink. Canonical = bytes written into a Vec by the same build.", "DESIGN.md §4 C15")
+add("C18", "E7 multiproc", "exploration", "exhaustive enumeration of a small input space x separately started processes, real uuid() vs an independent SHA-1 / RFC 4122 v5 implementation",
+    "4430 inputs (all byte strings <=5 over {a,LF,CR,00,ff}; every length 0..200 and around every multiple of 64 up to 4 KiB; 1 MiB; corpus as is / CRLF / without final newline) compared with an independent SHA-1-based v5 computation (validated against FIPS 180 vectors), in the driver and in 6 (16) separately started processes, each starting with two threads racing on the lazily built namespace.",
+    "Trusted: rustc/std; pgmc/src/sha1.rs. The function delegates to uuid/sha1_smol; weakest use of the technique in the set.", "DESIGN.md §4 C18")
+add("C20", "E6 sched", "model_checking", "exhaustive DFS (shuttle) over the schedules of real threads sharing one mapper/cache/mapping, scheduling point before every API step; plus a run-time auto-trait gate",
+    "Send+Sync table for 15 public handle/iterator/result types (a missing auto trait is a violation naming the type). All 256 ordered pairs of 16 API scripts x 3 steps (thorough: + all pairs x 5 steps, + 216 triples x 3 steps): every schedule is executed on fresh real objects and every thread must observe exactly what its script observes alone. A free-running OS-thread pass is labelled sampling.",
+    "Trusted: rustc/std auto traits; shuttle 0.9.3. /repo/src has no sync primitives: schedule points exist only between API steps (before each call / iterator step); intra-call interleavings rest on Send/Sync.", "DESIGN.md §4 C20")
+
 manifest = {
     "version": 1,
     "setup_cmd": "mkdir -p target && (cd pgmc && CARGO_NET_OFFLINE=true cargo build --release --offline) && (test ! -f shim/getrandom_shim.c || gcc -O2 -shared -fPIC -o shim/getrandom_shim.so shim/getrandom_shim.c)",
@@ -91,6 +108,9 @@ manifest = {
          "kind_free_text": "DFS over byte / token / line strings; real parser on every string; AST, recogniser, compositionality and fold oracles"},
         {"name": "E3 tracespace", "path": "pgmc/src/props/e3.rs pgmc/src/props/c16.rs", "serves_properties": [i for i in C if C[i]["engine"].startswith("E3")],
          "kind_free_text": "DFS over trace texts, typed traces and descriptor strings; real code in every state; text / typed / descriptor models"},
+        {"name": "E5 sinkfault", "path": "pgmc/src/props/c15.rs", "serves_properties": ["C15"], "kind_free_text": "deviation-bounded explorer over sink answer scripts"},
+        {"name": "E6 sched", "path": "pgmc/src/props/c20.rs", "serves_properties": ["C20"], "kind_free_text": "shuttle check_dfs over real threads + run-time Send/Sync gate"},
+        {"name": "E7 multiproc", "path": "pgmc/src/props/e7.rs", "serves_properties": ["C14", "C18"], "kind_free_text": "same deterministic enumeration in separately started processes with owned hash seeds (LD_PRELOAD getrandom shim); digests compared position-wise"},
         {"name": "E4 bytefault", "path": "pgmc/src/props/e4.rs", "serves_properties": [i for i in C if C[i]["engine"].startswith("E4")],
          "kind_free_text": "crash-point / corruption enumeration over cache files with an explicit deviation bound; real parser + queries on every faulted buffer"},
         {"name": "E1 mapspace", "path": "pgmc/src/e1.rs", "serves_properties": [i for i in C if C[i]["engine"].startswith("E1")],
